@@ -1,0 +1,23 @@
+//go:build verif
+
+package searcher
+
+// Verification hooks (build tag "verif" only): reach unexported pure functions.
+
+// VerifSplitInt64Range returns the (start, end) terms of splitInt64Range.
+func VerifSplitInt64Range(minBound, maxBound int64, precisionStep uint) [][2][]byte {
+	trs := splitInt64Range(minBound, maxBound, precisionStep)
+	rv := make([][2][]byte, 0, len(trs))
+	for _, tr := range trs {
+		rv = append(rv, [2][]byte{tr.startTerm, tr.endTerm})
+	}
+	return rv
+}
+
+// VerifEnumerateRanges runs termRanges.Enumerate with the given filter.
+func VerifEnumerateRanges(minBound, maxBound int64, precisionStep uint, filter func([]byte) bool) [][]byte {
+	return splitInt64Range(minBound, maxBound, precisionStep).Enumerate(filter)
+}
+
+// VerifIncrementBytes exposes incrementBytes.
+func VerifIncrementBytes(in []byte) []byte { return incrementBytes(in) }
